@@ -7,6 +7,7 @@
    the chains themselves (user code, any operators) and the world are universally quantified. *)
 From Coq Require Import List ZArith Lia.
 From Join Require Import Tok Names Ast Comp Std Denote Spec Leaves SpecProps.
+From Join Require SpecPositions.
 From Join Require ThreadsProps.
 From Join Require RefineCorollaries.
 From Join Require Ir Gen RefineBase RefineChain RefineProg RefineTop.
@@ -121,3 +122,162 @@ Theorem thread_step_delivers_results_in_branch_order :
      ThreadsProps.thr_of wstate s c = Some th /\ ThreadsProps.cdesc (K rs) (Threads.th_code th)).
 Proof. exact (@ThreadsProps.block_barrier). Qed.
 Print Assumptions thread_step_delivers_results_in_branch_order.
+
+(* OBLIGATION async_result_positions *)
+Theorem async_result_positions :
+  forall
+    (msem : String.string ->
+            option (list Tok.operand) -> Comp.dval -> list Comp.dval -> Comp.comp Comp.dval)
+    (dotsem : Tok.operand -> list (String.string * option Comp.val) -> Comp.dval -> Comp.comp Comp.dval)
+    (callsem : Comp.val -> list Comp.dval -> Comp.comp Comp.dval)
+    (awaitsem : Comp.val -> Comp.comp Comp.val) (p : Spec.sprog) (T : nat -> nat -> Comp.dval -> Prop),
+  (forall b : nat, b < Datatypes.length (Spec.sp_trees p) -> 1 <= Spec.depth p b) ->
+  (forall (sn : list (String.string * option Comp.val)) (cp : Spec.caps) (k : nat) 
+     (st : Spec.state) (b : nat),
+   b < Datatypes.length (Spec.sp_trees p) ->
+   k < Spec.depth p b ->
+   Leaves.leaves (Spec.chain msem dotsem callsem p sn cp k st b)
+     (fun d : Comp.dval =>
+      Leaves.leaves (Std.await_d awaitsem d) (fun v : Comp.val => T b k (Comp.DV v)))) ->
+  Ast.is_async (Spec.sp_cfg p) = true ->
+  Ast.is_try (Spec.sp_cfg p) = false ->
+  Spec.sp_handler p = None ->
+  Leaves.leaves (Spec.spec msem dotsem callsem awaitsem p)
+    (fun d : Comp.dval =>
+     Leaves.leaves (Std.await_d awaitsem d) (fun v : Comp.val => SpecProps.ResultOK p T (Comp.DV v))).
+Proof. exact (@SpecPositions.result_positions_async_await). Qed.
+Print Assumptions async_result_positions.
+
+(* OBLIGATION try_sync_result_positions *)
+Theorem try_sync_result_positions :
+  forall
+    (msem : String.string ->
+            option (list Tok.operand) -> Comp.dval -> list Comp.dval -> Comp.comp Comp.dval)
+    (dotsem : Tok.operand -> list (String.string * option Comp.val) -> Comp.dval -> Comp.comp Comp.dval)
+    (callsem : Comp.val -> list Comp.dval -> Comp.comp Comp.dval)
+    (awaitsem : Comp.val -> Comp.comp Comp.val) (p : Spec.sprog) (T : nat -> nat -> Comp.dval -> Prop),
+  (forall b : nat, b < Datatypes.length (Spec.sp_trees p) -> 1 <= Spec.depth p b) ->
+  forall fam : bool,
+  (forall (sn : list (String.string * option Comp.val)) (cp : Spec.caps) (k : nat) 
+     (st : Spec.state) (b : nat),
+   b < Datatypes.length (Spec.sp_trees p) ->
+   k < Spec.depth p b -> Leaves.leaves (Spec.chain msem dotsem callsem p sn cp k st b) (T b k)) ->
+  (forall (b k : nat) (d : Comp.dval),
+   b < Datatypes.length (Spec.sp_trees p) ->
+   k < Spec.depth p b -> T b k d -> exists w v : Comp.val, d = Comp.DV w /\ SpecProps.wellf fam w v) ->
+  Ast.is_async (Spec.sp_cfg p) = false ->
+  Ast.is_spawn (Spec.sp_cfg p) = false ->
+  Ast.is_try (Spec.sp_cfg p) = true ->
+  Spec.sp_handler p = None ->
+  Leaves.leaves (Spec.spec msem dotsem callsem awaitsem p) (SpecPositions.TryResultOK p T fam).
+Proof. exact (@SpecPositions.result_positions_try_sync_spec). Qed.
+Print Assumptions try_sync_result_positions.
+
+(* OBLIGATION try_async_result_positions *)
+Theorem try_async_result_positions :
+  forall
+    (msem : String.string ->
+            option (list Tok.operand) -> Comp.dval -> list Comp.dval -> Comp.comp Comp.dval)
+    (dotsem : Tok.operand -> list (String.string * option Comp.val) -> Comp.dval -> Comp.comp Comp.dval)
+    (callsem : Comp.val -> list Comp.dval -> Comp.comp Comp.dval)
+    (awaitsem : Comp.val -> Comp.comp Comp.val) (p : Spec.sprog) (T : nat -> nat -> Comp.dval -> Prop),
+  (forall b : nat, b < Datatypes.length (Spec.sp_trees p) -> 1 <= Spec.depth p b) ->
+  (forall (sn : list (String.string * option Comp.val)) (cp : Spec.caps) (k : nat) 
+     (st : Spec.state) (b : nat),
+   b < Datatypes.length (Spec.sp_trees p) ->
+   k < Spec.depth p b ->
+   Leaves.leaves (Spec.chain msem dotsem callsem p sn cp k st b)
+     (fun d : Comp.dval =>
+      Leaves.leaves (Std.await_d awaitsem d) (fun v : Comp.val => T b k (Comp.DV v)))) ->
+  Ast.is_async (Spec.sp_cfg p) = true ->
+  Ast.is_try (Spec.sp_cfg p) = true ->
+  Spec.sp_handler p = None ->
+  Leaves.leaves (Spec.spec msem dotsem callsem awaitsem p)
+    (fun d : Comp.dval =>
+     Leaves.leaves (Std.await_d awaitsem d)
+       (fun v : Comp.val => SpecPositions.TryResultOK p T false (Comp.DV v))).
+Proof. exact (@SpecPositions.result_positions_try_async_await). Qed.
+Print Assumptions try_async_result_positions.
+
+(* OBLIGATION generated_async_result_positions *)
+Theorem generated_async_result_positions :
+  forall
+    (msem : String.string ->
+            option (list Tok.operand) -> Comp.dval -> list Comp.dval -> Comp.comp Comp.dval)
+    (dotsem : Tok.operand -> list (String.string * option Comp.val) -> Comp.dval -> Comp.comp Comp.dval)
+    (callsem : Comp.val -> list Comp.dval -> Comp.comp Comp.dval)
+    (awaitsem : Comp.val -> Comp.comp Comp.val) (cfg : Ast.config) (inp : Ast.input) 
+    (e : Ir.rexpr) (sp : Spec.sprog) (T : nat -> nat -> Comp.dval -> Prop),
+  Ast.is_async cfg = true ->
+  Ast.is_try cfg = false ->
+  Ast.i_handler inp = None ->
+  RefineProg.wf inp ->
+  Gen.gen cfg inp = Ir.Ok e ->
+  Spec.prepare cfg inp = Some sp ->
+  (forall (sn : list (String.string * option Comp.val)) (cp : Spec.caps) (k : nat) 
+     (st : Spec.state) (b : nat),
+   b < Datatypes.length (Spec.sp_trees sp) ->
+   k < Spec.depth sp b ->
+   Leaves.leaves (Spec.chain msem dotsem callsem sp sn cp k st b)
+     (fun d : Comp.dval =>
+      Leaves.leaves (Std.await_d awaitsem d) (fun v : Comp.val => T b k (Comp.DV v)))) ->
+  exists c : Comp.comp Comp.val,
+    Denote.den (Spec.user_names inp) msem dotsem callsem awaitsem e Denote.empty_env =
+    Comp.Ret (Comp.DFut c) /\ Leaves.leaves c (fun v : Comp.val => SpecProps.ResultOK sp T (Comp.DV v)).
+Proof. exact (@SpecPositions.den_gen_result_positions_async). Qed.
+Print Assumptions generated_async_result_positions.
+
+(* OBLIGATION generated_try_result_positions *)
+Theorem generated_try_result_positions :
+  forall
+    (msem : String.string ->
+            option (list Tok.operand) -> Comp.dval -> list Comp.dval -> Comp.comp Comp.dval)
+    (dotsem : Tok.operand -> list (String.string * option Comp.val) -> Comp.dval -> Comp.comp Comp.dval)
+    (callsem : Comp.val -> list Comp.dval -> Comp.comp Comp.dval)
+    (awaitsem : Comp.val -> Comp.comp Comp.val) (inp : Ast.input) (e : Ir.rexpr) 
+    (sp : Spec.sprog) (T : nat -> nat -> Comp.dval -> Prop) (fam : bool),
+  let cfg := {| Ast.is_async := false; Ast.is_try := true; Ast.is_spawn := false |} in
+  Ast.i_handler inp = None ->
+  RefineProg.wf inp ->
+  Gen.gen cfg inp = Ir.Ok e ->
+  Spec.prepare cfg inp = Some sp ->
+  (forall (sn : list (String.string * option Comp.val)) (cp : Spec.caps) (k : nat) 
+     (st : Spec.state) (b : nat),
+   b < Datatypes.length (Spec.sp_trees sp) ->
+   k < Spec.depth sp b -> Leaves.leaves (Spec.chain msem dotsem callsem sp sn cp k st b) (T b k)) ->
+  (forall (b k : nat) (d : Comp.dval),
+   b < Datatypes.length (Spec.sp_trees sp) ->
+   k < Spec.depth sp b -> T b k d -> exists w v : Comp.val, d = Comp.DV w /\ SpecProps.wellf fam w v) ->
+  Leaves.leaves (Denote.den (Spec.user_names inp) msem dotsem callsem awaitsem e Denote.empty_env)
+    (SpecPositions.TryResultOK sp T fam).
+Proof. exact (@SpecPositions.den_gen_result_positions_try_sync). Qed.
+Print Assumptions generated_try_result_positions.
+
+(* OBLIGATION generated_try_async_result_positions *)
+Theorem generated_try_async_result_positions :
+  forall
+    (msem : String.string ->
+            option (list Tok.operand) -> Comp.dval -> list Comp.dval -> Comp.comp Comp.dval)
+    (dotsem : Tok.operand -> list (String.string * option Comp.val) -> Comp.dval -> Comp.comp Comp.dval)
+    (callsem : Comp.val -> list Comp.dval -> Comp.comp Comp.dval)
+    (awaitsem : Comp.val -> Comp.comp Comp.val) (cfg : Ast.config) (inp : Ast.input) 
+    (e : Ir.rexpr) (sp : Spec.sprog) (T : nat -> nat -> Comp.dval -> Prop),
+  Ast.is_async cfg = true ->
+  Ast.is_try cfg = true ->
+  Ast.i_handler inp = None ->
+  RefineProg.wf inp ->
+  Gen.gen cfg inp = Ir.Ok e ->
+  Spec.prepare cfg inp = Some sp ->
+  (forall (sn : list (String.string * option Comp.val)) (cp : Spec.caps) (k : nat) 
+     (st : Spec.state) (b : nat),
+   b < Datatypes.length (Spec.sp_trees sp) ->
+   k < Spec.depth sp b ->
+   Leaves.leaves (Spec.chain msem dotsem callsem sp sn cp k st b)
+     (fun d : Comp.dval =>
+      Leaves.leaves (Std.await_d awaitsem d) (fun v : Comp.val => T b k (Comp.DV v)))) ->
+  exists c : Comp.comp Comp.val,
+    Denote.den (Spec.user_names inp) msem dotsem callsem awaitsem e Denote.empty_env =
+    Comp.Ret (Comp.DFut c) /\
+    Leaves.leaves c (fun v : Comp.val => SpecPositions.TryResultOK sp T false (Comp.DV v)).
+Proof. exact (@SpecPositions.den_gen_result_positions_try_async). Qed.
+Print Assumptions generated_try_async_result_positions.
